@@ -23,7 +23,10 @@ var Dict = []string{
 	"xin-addr.arpa", "xip6.arpa", "4.3.2.1.İn-addr.arpa", "4.3.2.1.in-addr.arKa", "İp6.arpa",
 	"4.3.2.1.in-addr.arpa", "4.3.2.1.in-addr.arpa.", "4.3.2.1.IN-ADDR.ARPA", "256.3.2.1.in-addr.arpa",
 	"::ffff:4.3.2.1.in-addr.arpa", "::ffff:403:201.in-addr.arpa", "0:0:0:0:0:ffff:4.3.2.1.in-addr.arpa", "::1.in-addr.arpa", "::.in-addr.arpa",
-	"1.2.3.4.ip6.arpa", "::1.ip6.arpa", "4.3.2.1%eth0.in-addr.arpa", "04.3.2.1.in-addr.arpa", "4.3.2.1.in-addr.arpa.in-addr.arpa",
+	"1.2.3.4.ip6.arpa", "::1.ip6.arpa", "\x11.10.IN-ADDR.ARPA", "1\x0e10.In-Addr.Arpa", "8.B.D.0.1.0.0.2.ip\x16.arpa", "Host.\x11.10.in-addr.arpa",
+	"4.3.2.1.in-addr.arpa.2.1.in-addr.arpa.", "in-addr.arpa.in-addr.arpa", "IN-ADDR.ARPA", "In-Addr.Arpa.", "IP6.ARPA.",
+	strings.Repeat("почтовый-сервер.", 14) + "1.0.0.127.In-Addr.Arpa", strings.Repeat("あ", 30) + "." + strings.Repeat("あ", 30) + "." + strings.Repeat("あ", 30) + ".Com",
+	strings.Repeat("é.", 40) + "com", strings.Repeat("рф.", 28) + "рф", "example.18446744073709551616", "a." + strings.Repeat("7", 63), "4.3.2.1%eth0.in-addr.arpa", "04.3.2.1.in-addr.arpa", "4.3.2.1.in-addr.arpa.in-addr.arpa",
 	"1.0.0.0.0.0.0.0.0.0.0.0.0.0.0.0.0.0.0.0.0.0.0.0.0.0.0.0.0.0.0.0.ip6.arpa",
 	"1.0.0.0.0.0.0.0.0.0.0.0.0.0.0.0.0.0.0.0.0.0.0.0.0.0.0.0.0.0.0.0.0.ip6.arpa",
 	"example.com", "example.com.", "EXAMPLE.COM", "-a.com", "a-.com", "a..com", "_srv._tcp.example.com",
@@ -159,7 +162,51 @@ var nameFill = rapid.Custom(func(t *rapid.T) string {
 	return s
 })
 
+// idnLong generates names written in non-ASCII scripts that are much longer
+// in UTF-8 than in punycode (repeated or same-script runes compress well), so
+// that the raw length and the ASCII length fall on different sides of the 63
+// and 253 limits; optionally followed by ASCII labels in mixed case (ARPA
+// roots included).
+var idnLong = rapid.Custom(func(t *rapid.T) string {
+	n := rapid.IntRange(1, 9).Draw(t, "labels")
+	parts := make([]string, 0, n+1)
+	for i := 0; i < n; i++ {
+		unit := rapid.SampledFrom([]string{"а", "あ", "é", "пример", "министерство-связи", "世界", "ü", "д-"}).Draw(t, "unit")
+		k := rapid.SampledFrom([]int{1, 5, 10, 20, 28, 30, 31, 40, 60}).Draw(t, "k")
+		l := strings.Repeat(unit, k)
+		if rapid.IntRange(0, 3).Draw(t, "trimhy") != 0 {
+			l = strings.Trim(l, "-")
+		}
+		parts = append(parts, l)
+	}
+	tail := rapid.SampledFrom([]string{"com", "рф", "Example.COM", "1.0.0.127.In-Addr.Arpa", "In-Addr.Arpa", "IP6.arpa", "8.b.D.0.1.0.0.2.ip6.ARPA", "in-addr.arpa", "a1", "123", "x-"}).Draw(t, "tail")
+	s := strings.Join(parts, ".") + "." + tail
+	if rapid.IntRange(0, 9).Draw(t, "dot") == 0 {
+		s += "."
+	}
+	return s
+})
+
+// IDNLong returns the long-IDN generator.
+func IDNLong() *rapid.Generator[string] { return idnLong }
+
+// FlipCaseBits XORs 0x20 into 1..3 bytes of s: the classic case-bit
+// confusion (letters change case, digits, dots and hyphens turn into control
+// bytes and vice versa).
+func FlipCaseBits(t *rapid.T, s string) string {
+	if s == "" {
+		return s
+	}
+	b := []byte(s)
+	n := rapid.IntRange(1, 3).Draw(t, "flips")
+	for i := 0; i < n; i++ {
+		b[rapid.IntRange(0, len(b)-1).Draw(t, "flipat")] ^= 0x20
+	}
+	return string(b)
+}
+
 var name = rapid.OneOf(
+	idnLong,
 	rapid.Custom(func(t *rapid.T) string {
 		n := rapid.IntRange(0, 8).Draw(t, "n")
 		parts := make([]string, 0, n+1)
@@ -255,6 +302,22 @@ type ArpaCase struct {
 func Arpa() *rapid.Generator[string] { return arpa }
 
 var arpa = rapid.Custom(func(t *rapid.T) string {
+	s := arpaBase.Draw(t, "base")
+	switch rapid.IntRange(0, 11).Draw(t, "post") {
+	case 0:
+		// Upper-case a random subset of letters, then flip the case bit of a
+		// few arbitrary bytes.
+		return FlipCaseBits(t, strings.ToUpper(s))
+	case 1:
+		return FlipCaseBits(t, s)
+	}
+	return s
+})
+
+var arpaBase = rapid.Custom(func(t *rapid.T) string {
+	if rapid.IntRange(0, 14).Draw(t, "idnlong") == 0 {
+		return idnLong.Draw(t, "idn")
+	}
 	if rapid.IntRange(0, 11).Draw(t, "iptext") == 0 {
 		// An address in ordinary text form (IPv4, IPv6, IPv4-mapped, zoned,
 		// near-misses) in front of a root: the decoders hand such text to
